@@ -237,6 +237,10 @@ fn check_case(c: &Case) -> Outcome {
                     if wh != Where::InReplay {
                         let info = &r.nodes[key_idx];
                         let ok = (info.start.line as u64 == *l && info.start.col as u64 == *col) || (info.content.line as u64 == *l && info.content.col as u64 == *col);
+                        // an omitted node (`&ek :`) has no text of its own: anything from its
+                        // anchor up to the `:` is "at the repeated key"
+                        let omitted = info.token_end.map(|e| e == info.content).unwrap_or(false);
+                        let ok = ok || (omitted && info.start.line as u64 == *l && (info.start.col as u64..=info.content.col as u64 + 1).contains(col));
                         if !ok {
                             return Outcome::Fail(format!(
                                 "duplicate-key error located at {l}:{col}, the repeated key is at {}:{} (text {text:?})",
@@ -314,7 +318,7 @@ fn arb_value() -> BoxedStrategy<Node> {
 
 fn key_variants(base: usize, variant: usize) -> Node {
     // the same key in different presentations; `base` selects the key identity
-    match base % 6 {
+    match base % 10 {
         0 => match variant % 3 {
             0 => s("a"),
             1 => Node::scalar("a", Style::Double),
@@ -333,6 +337,27 @@ fn key_variants(base: usize, variant: usize) -> Node {
         },
         3 => Node::seq(true, vec![s("a"), s("b")]),
         4 => Node::map(true, vec![(s("a"), s("1"))]),
+        // application tags are part of the key node: `!t a`, `!u a` and `a` are three keys
+        6 => match variant % 3 {
+            0 => Node::scalar("a", Style::Double).tagged("!t"),
+            1 => s("a").tagged("!u"),
+            _ => s("a").tagged("!t"),
+        },
+        // the null key: `~` and an omitted node that carries an anchor (reported as an empty
+        // plain scalar by the parser) are the same key; the empty string is another one
+        8 => match variant % 3 {
+            1 => Node { anchor: Some("ek".into()), tag: None, kind: Kind::Scalar { value: String::new(), style: Style::Plain } },
+            _ => s("~"),
+        },
+        9 => match variant % 3 {
+            1 => Node::scalar("", Style::Single),
+            _ => Node::scalar("", Style::Double),
+        },
+        7 => match variant % 3 {
+            0 => Node::seq(true, vec![s("a"), s("b")]).tagged("!t"),
+            1 => Node::seq(true, vec![s("a"), s("b")]).tagged("!u"),
+            _ => Node::seq(true, vec![s("a"), s("b")]),
+        },
         _ => match variant % 2 {
             0 => Node::alias("kk"),
             _ => s("kx"),
@@ -346,6 +371,8 @@ fn make_case(es: Vec<(usize, usize, Node)>, lb: u32, target: Target, place: usiz
     let mut entries: Vec<(Node, Node)> = vec![];
     let struct_keys = ["a", "b", "c", "k", "x", "y"];
     for (base, var, v) in es {
+        // (the all-strings target cannot take the null key: the empty string stands in)
+        let base = if target == Target::ShapeStr && base % 10 == 8 { 9 } else { base };
         let k = if target == Target::Struct { s(struct_keys[base % 3]) } else { key_variants(base, var) };
         entries.push((k, v));
     }
@@ -462,7 +489,7 @@ impl Property for C04 {
         let n = 1 + b.below(6);
         let es: Vec<(usize, usize, Node)> = (0..n)
             .map(|_| {
-                let base = b.below(6);
+                let base = b.below(10);
                 let var = b.below(3);
                 let v = match b.below(9) {
                     0..=3 => gdoc::scalar_from_bytes(&mut b),
@@ -530,7 +557,7 @@ impl Property for C04 {
         ctx.subspace("mappings with <= 4 entries x 2 key identities x 3 key kinds x 3 value shapes x 3 placements x block/flow", total, true);
 
         // ---------------- random: mixed key presentations, aliases, nested
-        let entry = (0usize..6, 0usize..3, arb_value());
+        let entry = (0usize..10, 0usize..3, arb_value());
         let strat = (
             prop::collection::vec(entry, 1..7),
             any::<bool>(),
